@@ -97,5 +97,7 @@ def tagged_lines(out):
 
 def need_ok(out, stats, what):
     if stats.get('exit') != 0 or not stats.get('completed'):
-        tail = '\n'.join(out.split('\n')[-40:])
+        lines = [l for l in out.split('\n') if not l.startswith('<<')]
+        first = next((k for k, l in enumerate(lines) if l.startswith('Error')), max(0, len(lines) - 40))
+        tail = '\n'.join(l[:400] for l in lines[max(0, first - 3):first + 45])
         raise TlcError('%s: TLC did not complete (exit %s)\n%s' % (what, stats.get('exit'), tail))
